@@ -773,6 +773,19 @@ func sameAddr(a, b ssa.Value) bool {
 	if ok1 && ok2 {
 		return fa.Field == fb.Field && sameAddr(fa.X, fb.X)
 	}
+	ia, ok1 := a.(*ssa.IndexAddr)
+	ib, ok2 := b.(*ssa.IndexAddr)
+	if ok1 && ok2 {
+		return ia.Index == ib.Index && sameAddr(ia.X, ib.X)
+	}
+	// loads of the same single-assignment local holding a pointer/slice
+	la, ok1 := a.(*ssa.UnOp)
+	lb, ok2 := b.(*ssa.UnOp)
+	if ok1 && ok2 && la.X == lb.X {
+		if _, isAlloc := la.X.(*ssa.Alloc); isAlloc {
+			return true
+		}
+	}
 	return false
 }
 
@@ -969,7 +982,7 @@ func FuncAlias(v ssa.Value) *ssa.Function {
 func distinctObjects(a, b ssa.Value) bool {
 	fresh := func(v ssa.Value) bool {
 		switch x := v.(type) {
-		case *ssa.Call, *ssa.Alloc:
+		case *ssa.Call, *ssa.Alloc, *ssa.MakeSlice, *ssa.MakeMap:
 			return true
 		case *ssa.Extract:
 			_, ok := x.Tuple.(*ssa.Call)
@@ -998,6 +1011,9 @@ func distinctObjects(a, b ssa.Value) bool {
 		if (la || lb) && (ra != a || rb != b) {
 			return true
 		}
+	}
+	if ra != rb && (fresh(ra) && (named(rb) || fresh(rb)) || fresh(rb) && named(ra)) {
+		return true
 	}
 	return fresh(a) && (named(b) || fresh(b)) || fresh(b) && named(a)
 }
